@@ -10,7 +10,7 @@ PROP = {
     "harness": "c09",
     "driver": "c09",
     "n_quick": 60,
-    "n_thorough": 1500,
+    "n_thorough": 3000,
     "harness_timeout": 1500,
     "trusted": [
         "hooks hsms/verif_export_generations.go + hsmsss/verif_export_generations.go: make the connection's two existing test seams settable (testHookAfterWriteLock is what parks a sender inside writeFrame after the socket capture); no production code path is changed",
